@@ -263,7 +263,8 @@ Sub(a, b) ==
             <<Obj(DSub(pool[a].d, pool[b].d), SumRanks(pool[a], pool[b]))>>, <<>>)
 
 \* scalar multiple; side in {"left","right"}; how: python type used for the scalar
-Scalars == IF Lean THEN {<<-3, 0>>} ELSE {<<-3, 0>>, <<0, 0>>, <<1, 2>>}
+\* 1 is the neutral element: a product with it is still a new object (a shortcut that hands back the operand aliases it)
+Scalars == IF Lean THEN {<<-3, 0>>, <<1, 0>>} ELSE {<<-3, 0>>, <<0, 0>>, <<1, 2>>, <<1, 0>>}
 SMul(a, s, side, how) ==
     /\ "SMul" \in Ops /\ Exact(pool[a])
     /\ how \in (IF s[2] # 0 THEN {"complex"} ELSE IF Lean THEN {"float"} ELSE {"int", "float", "complex"})
